@@ -1,0 +1,7 @@
+//go:build !verif
+
+package syntax
+
+// verifRewritesOff is a constant zero unless the package is built with the verif
+// tag, so the guards that test it compile to nothing.
+const verifRewritesOff = 0
